@@ -68,26 +68,39 @@ def env(scratch):
 
 
 class Res:
-    """Stub ExecutionResult: remembers which content was executed."""
+    """Stub ExecutionResult: remembers which content was executed; optionally reports an exception at a
+    statement position (that steers get_last_mutatable_statement and the chop of mutate())."""
 
-    def __init__(self, code):
+    def __init__(self, code, exc_pos=None):
         self.code = code
+        self.exc_pos = exc_pos
+        self.timeout = False
         self.execution_trace = ("trace", code)
 
     def has_test_exceptions(self):
-        return False
+        return self.exc_pos is not None
 
     def get_first_position_of_thrown_exception(self):
-        return None
+        return self.exc_pos
+
+
+def set_search_config(chop, maxlen):
+    """Per-history search configuration of the real operators (global in pynguin): chop_max_length and
+    chromosome_length (pynguin's defaults when the case does not say otherwise)."""
+    import pynguin.configuration as config
+
+    sa = config.configuration.search_algorithm
+    sa.chop_max_length = True if chop is None else bool(chop)
+    sa.chromosome_length = 48 if maxlen is None else int(maxlen)
 
 
 class World:
     """Content codes, tables and the stub functions of one history."""
 
-    def __init__(self, salt: int, consistent: bool):
+    def __init__(self, salt: int, consistent: bool, exceptions: bool = False):
         import pynguin.ga.computations as ff
 
-        self.salt, self.cons = salt, consistent
+        self.salt, self.cons, self.exceptions = salt, consistent, exceptions
         self.codes: dict[str, int] = {}
         self.executions = 0
         self.operator_errors: list[str] = []
@@ -98,7 +111,8 @@ class World:
 
             def execute(self, test_case):
                 world.executions += 1
-                return Res(world.code(test_case))
+                code = world.code(test_case)
+                return Res(code, world.exc_pos(code, test_case.size()))
 
             def execute_multiple(self, test_cases):
                 for t in test_cases:
@@ -154,6 +168,13 @@ class World:
         self.tcov = [TCov(self.executor, i) for i in range(NC + 1)]
         self.sfit = [SFit(self.executor, i) for i in range(NF + 1)]
         self.scov = [SCov(self.executor, i) for i in range(NC + 1)]
+
+    def exc_pos(self, code, size):
+        """Deterministic per content: the execution raises at an early statement (two of three contents)."""
+        if not self.exceptions or size == 0:
+            return None
+        h = self._h("E", 0, code)
+        return None if h % 3 == 0 else (h // 3) % min(size, 2)
 
     # -- tables (pure functions of salt, so replays need no stored table) --
     def _h(self, kind, f, c):
@@ -362,14 +383,15 @@ def apply_tc_op(world, ch, op, E):
     return ch, ("OUnit",), ("Edit", o["content"], o["last"], o["changed"])
 
 
-def run_tc_history(seed, salt, cons, init, ops, scratch):
+def run_tc_history(seed, salt, cons, init, ops, scratch, exc=False, chop=None, maxlen=None):
     """Returns list of steps: dict(op, modelop, before, after, out)."""
     from pynguin.ga.testcasechromosome import TestCaseChromosome
     from pynguin.utils import randomness
 
     E = env(scratch)
+    set_search_config(chop, maxlen)
     randomness.RNG.seed(seed)
-    world = World(salt, cons)
+    world = World(salt, cons, exc)
     world.code(mk_tc(0))
     ch = TestCaseChromosome(mk_tc(init), E["factory"])
     init_code = world.code(ch.test_case)
@@ -506,12 +528,13 @@ def scratch_suite(world, s, op, E):
     return out
 
 
-def run_suite_history(seed, salt, cons, ops, scratch):
+def run_suite_history(seed, salt, cons, ops, scratch, exc=False, chop=None, maxlen=None):
     from pynguin.utils import randomness
 
     E = env(scratch)
+    set_search_config(chop, maxlen)
     randomness.RNG.seed(seed)
-    world = World(salt, cons)
+    world = World(salt, cons, exc)
     world.code(mk_tc(0))
     s = new_suite(world, E)
     steps = []
